@@ -40,6 +40,10 @@ def dirty_wrap(draw, strat):
     if draw(ints(0, 4)) == 0:
         case["cfg"] = dict(case["cfg"], dirty=draw(ints(1, 4)))
         case["classes"] = list(case.get("classes", [])) + ["dirty_object_memory"]
+    if case.get("harness") in ("deque", "mpmc", "ring") and draw(ints(0, 2)) == 0:
+        # the items stored are pointer-sized values of different shapes: id << 32 (low half zero), id << 48, bit 63 set, page-aligned
+        case["cfg"] = dict(case["cfg"], item_shape=draw(ints(1, 4)))
+        case["classes"] = list(case.get("classes", [])) + ["item_shape_%d" % case["cfg"]["item_shape"]]
     if draw(ints(0, 5)) == 0:
         # fiber stack size requested from fiber_create (default 64 KiB): smaller, larger, not a multiple of 16 or of the page size
         case["cfg"] = dict(case["cfg"], stack=draw(st.sampled_from([32768, 49153, 100000, 102400, 262144, 1000003])))
@@ -490,7 +494,7 @@ def msig_case(draw, tier):
 
 
 # --------------------------------------------------------------------------- C09
-DUR_US = [0, 1, 999, 1000, 4999, 5000, 7000, 3000, 3000, 3000, 12000, 25000]
+DUR_US = [0, 1, 999, 1000, 4999, 5000, 7000, 3000, 3000, 3000, 12000, 25000, 999999, 999998, 500000]
 
 
 @st.composite
@@ -963,8 +967,9 @@ def workq_case(draw, tier):
     base = 0
     if draw(ints(0, 2)) == 0:
         base = 2 ** draw(st.sampled_from(POW2_BOUNDARIES)) - draw(ints(1, 8))
-    return {"harness": "workq", "threads": 1, "cfg": {"session_base": base}, "fibers": fibers,
-            "classes": ["threads=%d" % nth, "session_base=%s" % ("0" if not base else "near_2^%d" % (base - 1).bit_length())]}
+    nested = draw(ints(0, 2)) == 0   # handlers of queue 0 push follow-up items onto a second queue: sessions of two queues nest on one thread
+    return {"harness": "workq", "threads": 1, "cfg": {"session_base": base, "nested": 1 if nested else 0}, "fibers": fibers,
+            "classes": ["threads=%d" % nth, "session_base=%s" % ("0" if not base else "near_2^%d" % (base - 1).bit_length()), "nested_queues" if nested else "one_queue"]}
 
 
 @st.composite
@@ -1034,12 +1039,13 @@ SPECS["C02"] = Spec("C02", "runner_rt", c02_parts, {"quick": 30000, "thorough": 
           "(b) whole-runtime create/yield/lock storms, mixed programs (every wake-up path: mutex, semaphore, rwlock, condition, channel, signal, join, sleep) and join/tryjoin/detach programs on 2-3(4) kernel threads with the pending-wake ghost and the owner-only-push ghost: a fiber made runnable is switched in exactly once per wake-up and nothing is "
           "left queued at quiescence. Non-trivial = (a) a successful steal together with an aborted CAS or a growth, (b) >= 2 kernel threads and at least one steal."),
     assumptions=DS_ASSUME + RT_ASSUME[2:], technique=DS_TECH + "; runtime part: pending-wake ghost over Hypothesis-generated fiber programs")
-SPECS["C13"] = ds_spec("C13", lambda tier: [ds_part("mpmc", mpmc_case)(tier)], {"quick": 30000, "thorough": 150000},
+# the MPMC FIFO and the hazard pointers are one mechanism seen from two sides: each of the two checks spends a fifth of its budget on the other's harness
+SPECS["C13"] = ds_spec("C13", lambda tier: [dict(ds_part("mpmc", mpmc_case)(tier), share=0.8), dict(ds_part("hazard", hazard_case)(tier), share=0.2)], {"quick": 30000, "thorough": 150000},
     "1-3 pushers (that may also pop) and 1-3 poppers, each with its own hazard record (registered up-front or lazily mid-run), unique values, nodes either freed by the gc callback "
     "(shadow-heap oracle) or recycled into the next push at once (ABA); " + DS_SCHED + "Oracle: FIFO linearizability with 'empty is excused if a push overlaps' for histories <= 40 ops; "
     "always: exactly-once after a final drain, nothing invented, real-time order of non-overlapping pushes, EMPTY only if nothing completed is pending or something overlaps. "
     "Non-trivial = >= 2 overlapping operations and at least one value transferred.")
-SPECS["C14"] = ds_spec("C14", lambda tier: [ds_part("hazard", hazard_case)(tier)], {"quick": 30000, "thorough": 150000},
+SPECS["C14"] = ds_spec("C14", lambda tier: [dict(ds_part("hazard", hazard_case)(tier), share=0.75), dict(ds_part("mpmc", mpmc_case)(tier), share=0.25)], {"quick": 30000, "thorough": 150000},
     "1-4 records x 1-4 slots over 4 shared cells: protect (load, publish, fence, validating re-read), deref, release, replace (swap in a fresh node, retire the old one), explicit scan, "
     "records that register mid-run; allocation padding shapes the sorted address snapshot; " + DS_SCHED + "Oracle: the gc callback never sees a node with a protection validated before its "
     "retirement; no deref of a reclaimed node (ghost + shadow heap); retired_count <= threshold after each retire; after a closing phase of 2*N*K dummy retirements per record everything "
@@ -1069,12 +1075,28 @@ SPECS["C20"] = Spec("C20", "runner_rt", c20_parts, {"quick": 30000, "thorough": 
 
 # --------------------------------------------------------------------------- C08
 @st.composite
-def io_case(draw, tier, shapes=("streams", "streams", "streams", "accept", "badfd", "close_under_waiter")):
+def io_case(draw, tier, shapes=("streams", "streams", "streams", "accept", "badfd", "close_under_waiter", "full_send_side")):
     threads = draw(ints(1, T(tier, 3, 4)))
     shape = draw(st.sampled_from(list(shapes)))
     fibers = []
     cfg = {}
     classes = ["threads=%d" % threads, shape]
+    if shape == "full_send_side":
+        # one socket used in both directions: A fills its own send side (the peer is not reading yet), then makes a blocking
+        # read-type call for a message the peer sends only now; the peer drains A's data only after A has got the message.
+        # A read-type call must wait for readability whatever the state of the descriptor's send side is.
+        cfg = {"nstream": 1, "stream_type0": 0}
+        if draw(st.booleans()):
+            cfg["sndbuf"] = draw(st.sampled_from([4096, 16384]))
+        m = draw(ints(1, 200))
+        kind = draw(ints(0, 4))
+        a = small_ops(draw, 1) + [op("wrfill", 0), op("setflag", 0), op("rd", 1, m, kind | (_chunk_for(draw, m) << 4)), op("setflag", 1), op("wclose", 0)]
+        b = small_ops(draw, 1) + [op("waitflag", 0), op("wr", 1, m, draw(ints(0, 4)) | (_chunk_for(draw, m) << 4)), op("waitflag", 1), op("rdeof", 0, 0, draw(ints(0, 4)) | (3 << 4)), op("wclose", 1)]
+        fibers = [a, b] if draw(st.booleans()) else [b, a]
+        for _ in range(draw(ints(0, 2))):
+            fibers.append([op("yield", draw(ints(1, 20)))])
+        classes.append("read_kind=%d" % kind)
+        return {"harness": "io", "threads": threads, "cfg": cfg, "fibers": fibers, "classes": sorted(set(classes))}
     if shape in ("streams", "close_under_waiter"):
         ns = draw(ints(1, 3))
         cfg["nstream"] = ns
@@ -1239,11 +1261,12 @@ EXTRA_RULE = {
            "counts as a bypass of each of them.",
     "C11": "Receivers use the blocking receive or the try_receive entry points polled with yield.",
     "C12": "Crowds of 40 .. 2100 further participants (the release loop then wakes more than 1024 fibers); barrier counter starting near 2^31 / 2^32.",
-    "C13": "Stalled-popper shapes continue until a recycled node is at the head again.",
-    "C14": "A thread releases only the slots it used, so slots a record was created with stay as they were.",
+    "C13": "Stalled-popper shapes continue until a recycled node is at the head again. A fifth of the budget runs the hazard-pointer harness of C14 (the reclamation the queue relies on).",
+    "C14": "A thread releases only the slots it used, so slots a record was created with stay as they were. A quarter of the budget runs the MPMC FIFO harness of C13 (the library's own user of "
+           "hazard pointers: use_after_reclaim / duplicated values there are hazard-pointer failures too).",
     "C15": "Relaxed queue with up to 12 producer lanes spread over up to 5 threads.",
     "C16": "Indices starting just below 2^8 .. 2^32; cases that use the waiting entry points push()/pop() with balanced counts; lockfree_ring_buffer_size never above the capacity.",
-    "C17": "Cases that start inside a worker session which has already handed out just under 2^8 .. 2^32 items.",
+    "C17": "Cases that start inside a worker session which has already handed out just under 2^8 .. 2^32 items; cases with two queues where the handler of an item of the first pushes onto the second (nested worker sessions on one thread).",
     "C18": "Descriptor part biased to descriptors closed under a waiter and numbers reused afterwards.",
     "C20": "The flushable stack is pushed through both mpmc_stack_push and mpmc_stack_push_timeout; reads let through inside the known-finding bracket are judged against known_findings.json.",
 }
